@@ -373,6 +373,7 @@ def handle(job: dict) -> dict:
         buf = io.BytesIO()
         y = YAML(typ="safe")
         y.default_flow_style = False
+        y.sort_base_mapping_type_on_output = False  # keep the document's key order
         y.dump(job["doc"], buf)
         body = buf.getvalue()
         suffix = job.get("suffix", ".yaml")
